@@ -282,7 +282,9 @@ fn gen_lang(a: &HashMap<String, String>) {
                 let mut p = wirefilter::FilterParser::new(&w.schemes[si]);
                 p.regex_set_compiled_size_limit(limit);
                 let ok = std::panic::catch_unwind(std::panic::AssertUnwindSafe(|| p.parse(&format!("s matches {txt}")).is_ok()));
-                res.push(json!({"limit": [0, (limit >> 16) as u32, (limit & 0xffff) as u32], "out": if ok.is_ok() { "ok" } else { "panic" }, "ok": ok.unwrap_or(false)}));
+                let nested = std::panic::catch_unwind(std::panic::AssertUnwindSafe(|| p.parse(&format!("not (s matches {txt})")).is_ok()));
+                res.push(json!({"limit": [0, (limit >> 16) as u32, (limit & 0xffff) as u32], "out": if ok.is_ok() && nested.is_ok() { "ok" } else { "panic" },
+                                "ok": ok.unwrap_or(false), "nested": nested.unwrap_or(false)}));
             }
             json!({"ev": "relimit", "id": k, "pat": pat, "tok": tok, "res": res})
         } else if family == "c07" {
